@@ -169,4 +169,22 @@ pub struct Args {
 }
 impl Args {
     pub fn thorough(&self) -> bool { self.tier == "thorough" }
+    /// `<bin> <stream> [--tier quick|thorough] [--seed N] [--out DIR]`; also silences the panic hook
+    pub fn parse() -> Args {
+        let argv: Vec<String> = std::env::args().collect();
+        if argv.len() < 2 { eprintln!("usage: {} <stream> [--tier T] [--seed N] [--out DIR]", argv[0]); std::process::exit(2); }
+        let mut a = Args { stream: argv[1].clone(), tier: "quick".into(), seed: 1, out: ".".into(), replay: None };
+        let mut i = 2;
+        while i < argv.len() {
+            match argv[i].as_str() {
+                "--tier" => { a.tier = argv[i + 1].clone(); i += 2; }
+                "--seed" => { a.seed = argv[i + 1].parse().unwrap_or(1); i += 2; }
+                "--out" => { a.out = argv[i + 1].clone(); i += 2; }
+                "--replay" => { a.replay = Some(argv[i + 1].clone()); i += 2; }
+                _ => { eprintln!("unknown argument {}", argv[i]); std::process::exit(2); }
+            }
+        }
+        silence_panics();
+        a
+    }
 }
